@@ -65,6 +65,26 @@ PROPS["C13"] = {
     ],
 }
 
+PROPS["C04"] = {
+    "level": "proof",
+    "lean_modules": ["Rain.Props.C04"],
+    "components": ["c04"],
+    "sig_prefixes": ["c04:"],
+    "title": "Iterators yield exactly the visible keys, in order, under any cursor movement",
+    "technique": "Lean 4 refinement proofs (MergingIterator = cursor over the sorted union; DatabaseIterator = cursor over the visible pairs; composition) for every cursor program + differential test of MergingIterator and DB::new_iterator against the compiled model and a sorted-map oracle",
+    "level_text": "Machine-checked refinement proofs over the Lean models of MergingIterator and DatabaseIterator (iterator.rs, file_iterators.rs) for every list of sorted children with distinct internal keys, every snapshot bound and every sequence of seek/first/last/next/prev with arbitrary reversals; tied to the code on every run by step-for-step comparison of the real iterators (MergingIterator over generated children; DB::new_iterator over LSM shapes produced by generated histories, at the latest state and at snapshots) with the compiled model, and by a BTreeMap cursor oracle evaluated on the implementation.",
+    "design_ref": "5 (C04)",
+    "trusted_base": COMMON_TB + [
+        "each child iterator (memtable iterator, table TwoLevelIterator [proved a cursor in C13], FilesEntryIterator of a level) behaves as a cursor over its sorted entries; FilesEntryIterator and the skip-list iterator are exercised through the DB-level comparison, not modelled",
+        "read sampling in DatabaseIterator (schedules compactions only) is not modelled",
+    ],
+    "assumptions": [
+        "internal keys are distinct across the merged sources (the LSM invariant proved in Props/Lsm guarantees it)",
+        "next/prev are only called on a valid iterator (the implementation asserts it); the model leaves an invalid iterator unchanged",
+        "contents do not change while a cursor program runs (iterator stability under concurrent writes is C03/C05)",
+    ],
+}
+
 DB_TB = COMMON_TB + [
     "nerdondon-hopscotch skip list, snap compression, crc crate, parking_lot, arc-swap: exercised through the real code, not modelled",
     "SimFs semantics (POSIX-like: per-handle cursors, O_APPEND, rename replaces, completed operations are durable and ordered)",
@@ -100,4 +120,4 @@ _db("C15", "Corrupted files are detected, never served as data", ["c15:"],
     "Lean 4 proof for the CRC-protected spans + exhaustive single-byte corruption of small images", "under construction", [], [], comps=("c15",))
 
 # properties whose check is registered in MANIFEST.json
-CLAIMED = ["C12", "C13", "C14"]
+CLAIMED = ["C04", "C12", "C13", "C14"]
